@@ -71,3 +71,19 @@ func (c Config) SeedReplicate(k, leader int, acks []int) []ss.SeedStep {
 	s = append(s, rep(3, fmt.Sprintf("s3(%d)", 3*N+leader))...) // advance commit index, apply, loop exit
 	return s
 }
+
+// SeedClientRecv: client k takes the pending response to its current request.
+func (c Config) SeedClientRecv(k int) []ss.SeedStep {
+	return []ss.SeedStep{{Proc: fmt.Sprintf("client(%d)", 6*c.NumServers+k)}}
+}
+
+// SeedAll returns the server ids other than leader.
+func (c Config) Others(leader int) []int {
+	var o []int
+	for j := 1; j <= c.NumServers; j++ {
+		if j != leader {
+			o = append(o, j)
+		}
+	}
+	return o
+}
